@@ -735,6 +735,66 @@ def transfer_stream(ctx, res, n):
                 break
 
 
+def rejection_rendering_stream(ctx, res):
+    """rejections whose offending 'field' is a nested section (a scalar, list or foreign configuration given for a sub-configuration,
+    by assignment, keyword, tree or document), a config-type field, a list item — and everything an application then does with the
+    error: str(), repr(), '%s' formatting, the friendly-name and path attributes, traceback formatting. Neither the schema's field set
+    and options, nor a configuration built afterwards, nor a second configuration may change."""
+    import traceback
+    import cincoconfig as cc
+
+    def make():
+        item = cc.Schema()
+        item.v = cc.IntField(default=1)
+        s = cc.Schema()
+        s.name = cc.StringField(default="n")
+        s.net.http.port = cc.IntField(default=80)
+        s.net.http.tls.level = cc.IntField(default=1)
+        s.db.host = cc.StringField(default="h")
+        s.one = cc.make_type(item, "RejItem")
+        s.items = cc.ListField(item, default=lambda: [])
+        return s
+
+    other = cc.Schema()
+    other.zzz = cc.IntField(default=1)
+    attempts = [("scalar-for-section", lambda c: setattr(c, "net", 5)), ("list-for-section", lambda c: setattr(c.net, "http", [1])),
+                ("foreign-config-for-section", lambda c: setattr(c, "db", other())), ("dotted-scalar-for-section", lambda c: c.__setitem__("net.http.tls", "x")),
+                ("tree-scalar-for-section", lambda c: c.load_tree({"net": {"http": 3}})), ("tree-list-for-section", lambda c: c.load_tree({"db": [1, 2]})),
+                ("json-scalar-for-section", lambda c: c.loads(b'{"net": {"http": {"tls": "off"}}}', format="json")),
+                ("keyword-scalar-for-section", lambda c: c._schema(net=7)), ("scalar-for-config-type", lambda c: setattr(c, "one", 5)),
+                ("scalar-for-list-item", lambda c: c.items.append(5)), ("bad-leaf", lambda c: setattr(c.net.http, "port", "x")),
+                ("unknown-key-in-section", lambda c: c.load_tree({"net": {"nope": 1}}))]
+    for name, attempt in attempts:
+        s = make()
+        a, b = s(), s()
+        schemas = all_schemas(s)
+        before = observe([a, b, s()], schemas)
+        n_schemas = len(schemas)
+        rendered = []
+        try:
+            attempt(a)
+            raised = False
+        except Exception as e:  # noqa
+            raised = True
+            for how, fn in [("str", lambda: str(e)), ("repr", lambda: repr(e)), ("format", lambda: "%s" % e), ("friendly_name", lambda: getattr(e, "friendly_name", None)),
+                            ("ref_path", lambda: getattr(e, "ref_path", None)), ("traceback", lambda: "".join(traceback.format_exception(type(e), e, e.__traceback__))),
+                            ("args", lambda: [str(x) for x in e.args])]:
+                try:
+                    fn()
+                    rendered.append(how)
+                except Exception:  # noqa
+                    rendered.append(how + ":raised")
+        after = observe([a, b, s()], schemas)
+        case = {"stream": "rejection-rendering", "attempt": name, "raised": raised, "rendered": rendered}
+        res.case(stable(case) if raised else None, kind="rejection-rendering:%s" % ("raised" if raised else "accepted"))
+        if not raised:
+            continue
+        d = [k for k in before if before[k] != after[k]]
+        if d or len(all_schemas(s)) != n_schemas:
+            res.violate("C13:schema-changed:rejection-rendered", "rejecting a value and rendering the error changed the schema, a second configuration, or what a new configuration looks like",
+                        dict(case, diff=d, schemas_before=n_schemas, schemas_after=len(all_schemas(s))))
+
+
 def odd_default_stream(ctx, res):
     """declared defaults that are mutable below a first level that is not a list / dict literal: a tuple holding lists, a dict default
     given as a list of pairs, a list default holding ready-made configuration objects. Enumerated: two configurations, every level of
@@ -820,6 +880,7 @@ def run(ctx, n_quick=250, n_thorough=8000):
         one_case(ctx, res, i, table, reqs, pend)
     guard(res, "C13", transfer_stream, ctx, res, ctx.n(300, 6000))
     guard(res, "C13", odd_default_stream, ctx, res)
+    guard(res, "C13", rejection_rendering_stream, ctx, res)
     replies = ctx.model(reqs)
     if replies is not None:
         for (case, trace), r in zip(pend, replies):
